@@ -278,6 +278,12 @@ func (api *API) encodeArray(ctx context.Context, value reflect.Value, ts TypeSet
 
 	// check if it is an array of bytes
 	if sliceValueType.AssignableTo(bytesType) {
+		if opts.validation {
+			// also reached through a pointer, which skips the check in encodeBasedOnType
+			if err := ts.checkMinMaxBounds(value); err != nil {
+				return nil, err
+			}
+		}
 		seri := serializer.NewSerializer()
 		if objectType := ts.ObjectType(); objectType != nil {
 			seri.WriteNum(objectType, func(err error) error {
